@@ -238,7 +238,7 @@ func genC08History(t *rapid.T, maxOps int, discard *memSink, probeCfg ...*cfgSpe
 	), zap.AddCaller(), zap.AddStacktrace(zapcore.DebugLevel), zap.WithFatalHook(countHook{new(int64)}), zap.WithPanicHook(countHook{new(int64)}))
 	so := specOpts{faults: true, viaAny: true}
 	for i := 0; i < n; i++ {
-		kind := rapid.SampledFrom([]string{"log", "log", "bigopen", "gc", "poison", "deepstack", "errors", "clone", "terminal", "with", "sinkfail", "encfail", "panicmarshal", "reuse", "bigreflect", "ownlogger", "shallow"}).Draw(t, "historyOp")
+		kind := rapid.SampledFrom([]string{"log", "log", "bigopen", "gc", "poison", "deepstack", "errors", "clone", "terminal", "with", "sinkfail", "encfail", "panicmarshal", "panicmarshal", "reuse", "bigreflect", "ownlogger", "shallow"}).Draw(t, "historyOp")
 		if kind == "reuse" && len(probeCfg) == 0 {
 			// histories that run on several goroutines (they get no probe configuration) must not misuse a
 			// CheckedEntry: after the first Write it is back in the pool and may already belong to another
@@ -353,6 +353,53 @@ func genC08History(t *rapid.T, maxOps int, discard *memSink, probeCfg ...*cfgSpe
 				func() {
 					defer func() { _ = recover() }()
 					lg.With(zap.Array("boomarr", c08PanicObj{})).Info("never reached")
+				}()
+				// ... with namespaces open around it, at the call site and inside a nested object
+				func() {
+					defer func() { _ = recover() }()
+					lg.Info("marshaler panics inside namespaces", zap.Namespace("ns1"), zap.Int("a", 1), zap.Namespace("ns2"), zap.Object("boom", c08PanicObj{}))
+				}()
+				func() {
+					defer func() { _ = recover() }()
+					lg.With(zap.Namespace("ctxns")).Info("nested", zap.Object("outer", zapcore.ObjectMarshalerFunc(func(e zapcore.ObjectEncoder) error {
+						e.OpenNamespace("inner")
+						return e.AddObject("boom", c08PanicObj{})
+					})))
+				}()
+				// the encoder configuration's own callbacks are user code too: one that panics after earlier columns
+				// or members have been produced
+				for _, which := range []string{"level", "caller", "name"} {
+					cfg := cs3.cfg
+					cfg.TimeKey, cfg.LevelKey, cfg.NameKey, cfg.CallerKey = "ts", "lvl", "logger", "caller"
+					cfg.EncodeTime = zapcore.ISO8601TimeEncoder
+					cfg.EncodeLevel, cfg.EncodeCaller, cfg.EncodeName = zapcore.CapitalLevelEncoder, zapcore.ShortCallerEncoder, zapcore.FullNameEncoder
+					switch which {
+					case "level":
+						cfg.EncodeLevel = func(zapcore.Level, zapcore.PrimitiveArrayEncoder) { panic("level encoder panics") }
+					case "caller":
+						cfg.EncodeCaller = func(zapcore.EntryCaller, zapcore.PrimitiveArrayEncoder) { panic("caller encoder panics") }
+					default:
+						cfg.EncodeName = func(string, zapcore.PrimitiveArrayEncoder) { panic("name encoder panics") }
+					}
+					var e2 zapcore.Encoder
+					if console {
+						e2 = zapcore.NewConsoleEncoder(cfg)
+					} else {
+						e2 = zapcore.NewJSONEncoder(cfg)
+					}
+					l2 := zap.New(zapcore.NewCore(e2, discard, zapcore.DebugLevel), zap.AddCaller()).Named("svc")
+					for k := 0; k < 2; k++ {
+						func() {
+							defer func() { _ = recover() }()
+							l2.Warn("an encoder callback panics", zap.Int("k", k))
+						}()
+					}
+				}
+				// and so are hooks
+				hooked := lg.WithOptions(zap.Hooks(func(zapcore.Entry) error { panic("hook panics") }))
+				func() {
+					defer func() { _ = recover() }()
+					hooked.Info("the hook panics", zap.Int("x", 1))
 				}()
 			})
 			h.pools["json encoder"], h.pools["slice encoder"], h.pools["buffer"] = true, true, true
